@@ -39,6 +39,15 @@ typedef doublecomplex scalar_t; typedef double real_t;
 #endif
 
 #include "drv.hh"
+#if defined(PREC_s)
+#define PP_TRSV sp_strsv
+#elif defined(PREC_d)
+#define PP_TRSV sp_dtrsv
+#elif defined(PREC_c)
+#define PP_TRSV sp_ctrsv
+#else
+#define PP_TRSV sp_ztrsv
+#endif
 #include "sim.hh"
 #include <string.h>
 #include <stdlib.h>
@@ -275,6 +284,15 @@ struct Impl : Drv {
         std::vector<long> e;
         if (opts.etree) for (int i = 0; i < n; ++i) e.push_back((long)opts.etree[i]);
         return e;
+    }
+
+    long call_trsv(const char *uplo, const char *trans, const char *diag, std::vector<cld> &xv) override {
+        std::vector<scalar_t> w(xv.size() ? xv.size() : 1);
+        for (size_t i = 0; i < xv.size(); ++i) w[i] = to_native(xv[i]);
+        int_t info = 0;
+        PP_TRSV((char *)uplo, (char *)trans, (char *)diag, &L, &U, w.data(), &info);
+        for (size_t i = 0; i < xv.size(); ++i) xv[i] = from_native(w[i]);
+        return (long)info;
     }
 
     void dump_LU(LUDump &d) override {
